@@ -13,7 +13,7 @@ import (
 	"fmt"
 	"go/ast"
 	"go/parser"
-	"go/printer"
+	"go/format"
 	"go/token"
 	"os"
 )
@@ -134,7 +134,7 @@ func main() {
 	}
 	sites[*n].apply()
 	var buf bytes.Buffer
-	if err := printer.Fprint(&buf, fset, f); err != nil {
+	if err := format.Node(&buf, fset, f); err != nil {
 		fmt.Fprintln(os.Stderr, err)
 		os.Exit(2)
 	}
